@@ -784,6 +784,9 @@ struct Shared {
 
 /// Exhaustive exploration of `factory`'s scenario within `cfg.bounds`.
 pub fn explore(factory: ScenarioFactory, cfg: &ExploreConfig) -> ExploreStats {
+    // warm-up: one throw-away execution initialises process-global lazy state (hash seeds, metric
+    // registries, ...) that the first execution of a process would otherwise observe differently
+    let _ = run_once(&factory, &[], cfg.bounds, None, cfg.max_steps);
     let t0 = Instant::now();
     let visited: Option<Arc<dyn Visited>> = if cfg.use_cache { Some(Arc::new(VisitedMap::new())) } else { None };
     let shared = Arc::new(Shared {
@@ -947,5 +950,6 @@ pub fn explore(factory: ScenarioFactory, cfg: &ExploreConfig) -> ExploreStats {
 
 /// Re-run one recorded execution (no search).
 pub fn replay(factory: &ScenarioFactory, prefix: &[Choice], bounds: Cost) -> RunResult {
+    let _ = run_once(factory, &[], bounds, None, 2000); // warm-up, see explore()
     run_once(factory, prefix, bounds, None, 2000)
 }
